@@ -1,6 +1,5 @@
-\* exhaustive check of the name slice of the partition (tools/props/C19.py generates the same
-\* text for Part = "name" | "unit" | "cross" | "bytes")
-CONSTANTS Part = "name"
+\* exhaustive check of the whole name/unit partition (Part = "name" | "unit" | "cross" | "bytes" select a slice)
+CONSTANTS Part = "all"
 INIT Init
 NEXT Next
 INVARIANTS TypeOK StatementName StatementUnit ExactlyValid LayoutFree DevNarrow HandAgrees
